@@ -29,7 +29,11 @@ def word(w):
 class Alphabet:
     """critical characters of one case: a few letters plus boundaries"""
     def __init__(self, rng, boundary=False):
-        base = rng.choice([[97, 98, 99], [97, 98, 99, 100], [48, 49, 97], [0, 1, 2], [MAXC - 2, MAXC - 1, MAXC], [97, 98, 99, 101], [97, 98, 99], [0xD7FF, 0xD800, 0xDFFF, 0xE000], [0xFFFD, 0xFFFF, 0x10000]])
+        base = rng.choice([[97, 98, 99], [97, 98, 99, 100], [48, 49, 97], [0, 1, 2], [MAXC - 2, MAXC - 1, MAXC], [97, 98, 99, 101], [97, 98, 99], [0xD7FF, 0xD800, 0xDFFF, 0xE000], [0xFFFD, 0xFFFF, 0x10000],
+                           # characters that coincide when truncated to 8 or 16 bits (memo tables, packed keys)
+                           [0x61, 0x161, 0x10061], [0x41, 0x141, 0x20041, 0x241],
+                           # many spaced characters: sub-terms with 9 and more derivative classes
+                           [97 + 2 * i for i in range(12)]])
         self.letters = list(base)
         if boundary and rng.random() < 0.5:
             self.letters = sorted(set(self.letters + [rng.choice([0, MAXC])]))
@@ -61,6 +65,31 @@ class Alphabet:
 
 
 LOOP_BOUNDS = [0, 0, 1, 1, 2, 2, 3, 5]
+
+
+def wide_term(rng, case, al=None):
+    """a term with 9-14 derivative classes (union of spaced characters / disjoint ranges), probed on its
+    last classes: union U, inter(U, last), diff(U, union of all but the last); returns (U, probes)"""
+    n = rng.choice([9, 10, 12, 14])
+    start = rng.choice([97, 0, 48, 0x100])
+    pts = [start + 2 * i for i in range(n)]
+    if rng.random() < 0.3:
+        pts[-1] = MAXC
+    atoms = []
+    for c in pts:
+        if rng.random() < 0.7:
+            atoms.append(case.push("char %d" % c))
+        else:
+            atoms.append(case.push("range %d %d" % (c, c if c == MAXC else c)))
+    order = list(atoms)
+    if rng.random() < 0.5:
+        rng.shuffle(order)
+    u = case.push("unionl %d%s" % (len(order), "".join(" %d" % x for x in order)))
+    last = atoms[-1]
+    i1 = case.push("inter %d %d" % (u, last))
+    rest = case.push("unionl %d%s" % (len(atoms) - 1, "".join(" %d" % x for x in atoms[:-1])))
+    d1 = case.push("diff %d %d" % (u, rest))
+    return u, [i1, d1], pts
 
 
 def gen_term(rng, case, al, depth, pool=None, degenerate=0.15, allow_compl=True):
@@ -210,11 +239,16 @@ def intensify(case, rng, n_variants=6):
     crit = sorted(set(list(chars) + [c + 1 for c in chars if c < MAXC] + [c - 1 for c in chars if c > 0]))[:12] or [97, 98]
     out = []
     n = len(stmts)
+    # terms with huge loop bounds have derivative closures of billions of terms: only flat observations
+    huge = any(t.split()[0] in ("pow", "loop", "loopinf") and any(x.isdigit() and int(x) > 64 for x in t.split()[2:])
+               for t in stmts)
     for v in range(n_variants):
         alpha = rng.sample(crit, min(3, len(crit)))
         obs = []
         for i in range(n):
             obs.append("nullable %d" % i)
+            if huge:
+                continue
             obs.append("memall %d 4 %s" % (i, word(alpha)))
             if not prefix:
                 obs.append("empty %d" % i)
